@@ -10,6 +10,9 @@ class Unexpected(Exception):
     pass
 
 
+SENTINEL = object()
+
+
 def run_case(case, k):
     ns = {"__name__": "c15_%d" % k}
     exec(B.build_source(case, "c15_%d" % k), ns)
@@ -35,8 +38,10 @@ def run_case(case, k):
         return i if ok else 1000 + i
 
     def tval(v):
+        if v is SENTINEL:
+            return None            # absent
         if v is None:
-            return None
+            return ["none"]        # the defined value None
         if isinstance(v, int):
             return ["v", v]
         if isinstance(v, (list, tuple)):
@@ -95,7 +100,7 @@ def run_case(case, k):
         tq = []
         for t in case["tagsU"]:
             tn = B.tagname(t)
-            q = tval(f.queryTaggedValue(tn))
+            q = tval(f.queryTaggedValue(tn, SENTINEL))
             try:
                 gv = tval(f.getTaggedValue(tn))
             except KeyError:
